@@ -114,3 +114,4 @@ u32 X_printf(u8 *fmt, ...) { (void)fmt; return 0; }
 u32 X_puts(u8 *s) { (void)s; return 0; }
 void envf_seek(u8 *h, u64 pos) { X_fseek(h, pos, 0); }
 u64 envf_tell(u8 *h) { return ((struct vfile *)h)->pos; }
+void envf_release(u8 *h) { (void)h; }
